@@ -270,3 +270,19 @@ Proof.
     rewrite sjson_detected. exact R.
   - rewrite (auto_read_written Sjson (s :: o') c ltac:(discriminate) W). exact R.
 Qed.
+
+(* ---------------------------------------------------------------- whitespace around the document *)
+Lemma jskip_ws_app w s : forallb jws w = true -> jskip (w ++ s) = jskip s.
+Proof.
+  induction w as [|c w IH]; intros H; [reflexivity|]. cbn [forallb] in H. apply andb_prop in H. destruct H as [Hc Hw].
+  unfold jskip in *. cbn [app dropwhile]. rewrite Hc. apply IH. exact Hw.
+Qed.
+Lemma jparse_val_ws k w s : forallb jws w = true -> jparse_val k (w ++ s) = jparse_val k s.
+Proof. intros H. destruct k; [reflexivity|]. cbn [jparse_val]. rewrite (jskip_ws_app w s H). reflexivity. Qed.
+(* whitespace before and after the document is accepted, as json.load does *)
+Theorem jload_jdump_ws2 t w1 w2 : forallb jws w1 = true -> forallb jws w2 = true -> jload (w1 ++ jdump t ++ w2) = Some t.
+Proof.
+  intros H1 H2. unfold jload. rewrite (jparse_val_ws _ w1 _ H1).
+  rewrite (jparse_jdump t _ w2); [|rewrite !app_length; pose proof (tsize_le_length t); lia].
+  rewrite <- (app_nil_r w2). rewrite (jskip_ws_app w2 [] H2). reflexivity.
+Qed.
